@@ -315,6 +315,16 @@ pub fn dag(quick: bool) -> Vec<Scenario> {
             .budgets(0, 1, 0, 1),
         );
     }
+    // the root of a chain fails through the loss of its worker at its crash limit (no worker
+    // reports the failure): every transitive dependant goes
+    v.push(
+        Scenario::new(
+            "dag-chain3-crashlimit1",
+            vec![w(1), w(1).spare()],
+            vec![vec![sub(SubmitSpec::graph(chain, RqSpec::cpus(1)).crash_limit("1"))]],
+        )
+        .budgets(1, 0, 1, 2),
+    );
     v
 }
 
@@ -744,6 +754,17 @@ pub fn mn(quick: bool) -> Vec<Scenario> {
 
 pub fn maxfails(quick: bool) -> Vec<Scenario> {
     let mut v = vec![
+        // two request classes in one job, tasks of both pre-sent to the worker when the first
+        // failure exceeds the limit: one CancelTasks names backlog tasks of both classes
+        {
+            let mut spec = SubmitSpec::graph(&[(0, &[]), (1, &[]), (2, &[]), (3, &[])], RqSpec::cpus(1)).max_fails(0);
+            spec.rqs = vec![vec![RqSpec::cpus(1)], vec![RqSpec::only("gpus", "compact", 10_000)]];
+            spec.graph[2].rq = 1;
+            spec.graph[3].rq = 1;
+            Scenario::new("maxfails-0-two-classes-prefill", vec![w(1).with("gpus", 1)], vec![vec![sub(spec)]])
+                .prefill(0, 1)
+                .budgets(0, 1, 0, 1)
+        },
         Scenario::new("maxfails-0-3t", vec![w(2)], vec![vec![sub(arr(&[0, 1, 2], 1).max_fails(0))]])
             .budgets(0, 1, 0, 1),
         Scenario::new("maxfails-1-3t", vec![w(2)], vec![vec![sub(arr(&[0, 1, 2], 1).max_fails(1))]])
@@ -1242,6 +1263,14 @@ pub fn journal(quick: bool) -> Vec<Scenario> {
             ],
         )
         .journal(),
+        // a graph whose submit lists its task ids out of ascending order
+        Scenario::new(
+            "journal-dag-unordered",
+            vec![w(1), w(1).spare()],
+            vec![vec![sub(SubmitSpec::graph(&[(5, &[]), (2, &[]), (9, &[5])], RqSpec::cpus(1)).crash_limit("3"))]],
+        )
+        .journal()
+        .budgets(1, 0, 1, 2),
         Scenario::new(
             "journal-prune",
             vec![w(1), w(1).spare()],
